@@ -437,3 +437,10 @@ reg("C05", [
       ["Packet::parse", "Packet::parse_section", "header_buffer::{questions,answers,name_servers,additional_records}"],
       params={'K_quick': 7, 'K_thorough': 11}),
 ], [])
+
+reg("C01", [
+    M("C01", "alloc.records", "rr_framing",
+      "three minimal TXT / NSEC / SVCB / HTTPS records in one message: elements requested through Vec::with_capacity while parsing sum to "
+      "at most the message length (no pre-allocation proportional to the record's offset or to header counts)",
+      ["Packet::parse", "TXT::parse", "NSEC::parse", "SVCB::parse"], params={'alloc_only': True}),
+], [])
